@@ -589,7 +589,23 @@ class Summaries:
         """core::iter::traits::iterator::Iterator::next | core::iter::traits::iterator::Iterator::nth"""
         if ctx.r["kind"] == "body":
             return None
-        return ctx.ex.abstract_call(st, ctx.fr, ctx.callee, ctx.r, ctx.args, ctx.dest_ty, ctx.span)
+        ex = ctx.ex
+        itv = self.deref_arg(ctx, st, ctx.args[0]) if ctx.args else None
+        res = ex.abstract_call(st, ctx.fr, ctx.callee, ctx.r, ctx.args, ctx.dest_ty, ctx.span)
+        if ctx.callee["name"] == "next" and isinstance(itv, Agg) and itv.name == "core::iter::filter" and len(itv.fields) == 2:
+            # core::iter::Filter: every item it yields satisfies the predicate
+            st2, ret = res[0]
+            if isinstance(ret, SymV):
+                some = ex.variant_cond(ret, 1)
+                item = ex.expand_sym(ret, 1).fields[0]
+                ex.counter += 1
+                root = ("O", "filter-item#%d" % ex.counter)
+                st2.mem[root] = item
+                ex.root_types[root] = getattr(item, "ty", None)
+                pv = self.apply_fn(ctx, st2, itv.fields[1], [Ptr(root, (), None, getattr(item, "ty", None), False)])
+                if isinstance(pv, BoolV):
+                    st2.facts.assume((ONE - some) + some * pv.p, 1)
+        return res
 
     # ------------------------------------------------------------------ embedded-graphics-core
     EG = "embedded_graphics_core::"
@@ -802,7 +818,10 @@ class Summaries:
         return [(st, mk_ite(room, ok, err))]
 
     def s_hv_deref(self, ctx, st):
-        """<heapless::vec::Vec as core::ops::deref::Deref>::deref | <heapless::vec::Vec as core::ops::deref::DerefMut>::deref_mut | heapless::vec::Vec::as_slice"""
+        """<heapless::vec::Vec as core::ops::deref::Deref>::deref | <heapless::vec::Vec as core::ops::deref::DerefMut>::deref_mut | heapless::vec::Vec::as_slice | core::ops::deref::Deref::deref | core::ops::deref::DerefMut::deref_mut"""
+        sty = ctx.gargs[0] if ctx.gargs else {}
+        if ctx.key.startswith("core::ops::deref") and not (sty.get("k") == "adt" and sty.get("def") == self.HV):
+            return None
         p = ctx.args[0]
         ln, ty = self.hv_get(ctx, st, p)
         ety = ty["args"][0] if ty else None
